@@ -101,13 +101,13 @@ enum Field {
 fn host_chain(c: &'static Coin, field: Field, strings: &[Vec<u8>]) -> (ChainBuilder, BTreeSet<String>) {
     let mut cb = ChainBuilder::with_genesis(c);
     // ordinary neighbours before and after
-    let mk_plain = |h: u64, k: u8| Tx { version: 1, segwit: false, inputs: vec![TxIn::spend([0xe0 + k; 32], 0)], outputs: vec![pay(40 + k, 7 * COIN_VALUE), TxOut { value: 0, script: script::op_return(format!("host{}-{}", h, k).as_bytes()) }], locktime: 0 };
+    let mk_plain = |h: u64, k: u8| Tx { version: 1, segwit: false, inputs: vec![TxIn::spend([0xe0 + k; 32], 0)], outputs: vec![pay(40 + k, 7 * COIN_VALUE), TxOut { value: 0, script: script::op_return(format!("host{}-{}", h, k).as_bytes()) }], locktime: 0, wide: 0 };
     cb.push(vec![mk_plain(1, 1)]);
     let mut txs = vec![mk_plain(2, 2)];
     let mut injected = BTreeSet::new();
     for (i, s) in strings.iter().enumerate() {
         let mut inp = TxIn::spend([0xd0; 32], i as u32);
-        let mut tx = Tx { version: 1, segwit: false, inputs: vec![], outputs: vec![], locktime: i as u32 };
+        let mut tx = Tx { version: 1, segwit: false, inputs: vec![], outputs: vec![], locktime: i as u32, wide: 0 };
         match field {
             Field::ScriptPubKey => tx.outputs = vec![TxOut { value: 0, script: s.clone() }, pay(60, 1)],
             Field::ScriptSig => {
